@@ -1,6 +1,6 @@
 (* C10 property theorems. Nothing but statements closed by `exact lemma` and Print Assumptions, plus Examples. *)
 From Coq Require Import NArith List Bool.
-From OG Require Import C10.Model C10.Proofs C10.Regex C10.RegexProofs C10.RegexSearch C10.FlushClear C10.ListingCond.
+From OG Require Import C10.Model C10.Proofs C10.Regex C10.RegexProofs C10.RegexAlt C10.RegexSearch C10.FlushClear C10.ListingCond C10.Prune.
 Import ListNotations.
 Open Scope N_scope.
 
@@ -99,7 +99,7 @@ Print Assumptions C10_repaired_regex_search_is_bruteforce.
 
 (* Characterisation of today's translation (simplify loop, literal prefix, or-values, optimised suffix matchers, isAllMatch,
    matching on escaped item bytes): on a pattern of an exact shape - a pure literal, an expression without position
-   assertions that can match the empty string, ^literal - and a value without the separator bytes 0, 1, 2 (or the absent
+   assertions that can match the empty string, ^literal, ^(lit|..|lit)$ with 2..20 literals - and a value without the separator bytes 0, 1, 2 (or the absent
    tag) it selects exactly what unanchored matching selects. The signatures of the regex findings are the complement. *)
 Theorem C10_current_regex_exact : forall r v,
   exact_shape r = true -> match v with Some x => plain x | None => True end ->
@@ -134,6 +134,7 @@ Example C10_exact_shapes_exist :
   exact_shape (RLit false [119; 101; 98]) = true /\ exact_shape (RStar RAnyNL) = true /\
   exact_shape (RAlt [RStar (RLit false [97]); RLit false [98]]) = true /\
   exact_shape (RConcat [RBeginText; RLit false [119; 101; 98]]) = true /\
+  exact_shape (RConcat [RBeginText; RCapture (RAlt [RLit false [119; 101; 98]; RLit false [100; 98]]); REndText]) = true /\
   exact_shape (RClass [(100, 100); (119, 119)]) = false /\
   plain [119; 101; 98; 45; 49] /\
   current_match (RConcat [RBeginText; RLit false [119; 101; 98]]) (Some [119; 101; 98; 45; 49]) = true /\
@@ -197,4 +198,26 @@ Example C10_cond_listing_example :
   let am := fun p v => (p =? 1) && ((v =? 1) || (v =? 2)) in
   list_series_cond am L 1 (Atom 2 Eq 0) = [mkS 1 [(1, 2)]; mkS 1 []] /\
   list_tag_values_cond am L 1 1 (Atom 1 Re 1) = [1; 2] /\ cardinality am L 1 (Atom 1 Nre 1) = 1%nat.
+Proof. vm_compute. repeat split. Qed.
+
+(* ---- the second evaluator of the select path: filters of an AND-only predicate checked against the SERIES KEY of a
+   candidate (doPrune / matchSeriesKeyTagFilter). One filter on one tag set means what the predicate means - absent tag =
+   empty string, negation, empty values, any regex matcher ---- *)
+Theorem C10_prune_atom_is_eval : forall am f ts, prune_atom am f ts = eval am (atom_of f) ts.
+Proof. exact prune_atom_eval. Qed.
+(* ... and every plan "answer the filters p :: pre from the index, check the filters post on the series keys of the
+   candidates" selects exactly what brute force selects for the whole conjunction, whichever way the cost order splits it *)
+Theorem C10_prune_plan_is_bruteforce : forall am L m p pre post,
+  wfL L -> Forall (fun g => fst (fst g) <> 0) (p :: pre ++ post) ->
+  forall id, In id (plan_ids am L m p pre post) <-> In id (bruteforce am L m (conj p (pre ++ post))).
+Proof. exact plan_is_bruteforce. Qed.
+Print Assumptions C10_prune_atom_is_eval.
+Print Assumptions C10_prune_plan_is_bruteforce.
+
+Example C10_prune_example :
+  let L := [(mkS 1 [(1, 1)], 101); (mkS 1 [(1, 2); (2, 5)], 102)] in
+  let am := fun _ _ => false in
+  (* a = 'x' AND b != 'y' on {a=x} (no tag b) and {a=2, b=5}: plans "a from the index, b on the key" and "both from the index" *)
+  plan_ids am L 1 (1, Eq, 1) [] [(2, Neq, 7)] = [101] /\ plan_ids am L 1 (1, Eq, 1) [(2, Neq, 7)] [] = [101] /\
+  bruteforce am L 1 (conj (1, Eq, 1) [(2, Neq, 7)]) = [101].
 Proof. vm_compute. repeat split. Qed.
